@@ -236,6 +236,27 @@ func (b *boundsFn) lenOf(e ast.Expr) (lin, bool) {
 			return lin{v, 0}, true
 		}
 	}
+	// s[a:] with a constant a, s[:b], s[a:b] with b − a constant (the bounds
+	// themselves are checked where the expression is evaluated)
+	if se, ok := e.(*ast.SliceExpr); ok && !se.Slice3 {
+		src, okS := b.lenOf(se.X)
+		lo, hi := lin{0, 0}, src
+		okL, okH := true, okS
+		if se.Low != nil {
+			lo, okL = b.linear(se.Low)
+		}
+		if se.High != nil {
+			hi, okH = b.linear(se.High)
+		}
+		if okL && okH {
+			switch {
+			case lo.v == 0:
+				return lin{hi.v, hi.c - lo.c}, true
+			case hi.v == lo.v:
+				return lin{0, hi.c - lo.c}, true
+			}
+		}
+	}
 	return lin{}, false
 }
 
@@ -344,6 +365,30 @@ func (b *boundsFn) refine(z *zone, cond ast.Expr, truth bool) *zone {
 			b.checkExpr(z, x.Y)
 			l, ok1 := b.linear(x.X)
 			r, ok2 := b.linear(x.Y)
+			if tv, ok := info.Types[x.X]; ok && isStringT(tv.Type) && (x.Op == token.EQL || x.Op == token.NEQ) {
+				// s == "lit": the lengths agree; s != "": len(s) ≥ 1
+				ls, okA := b.lenOf(x.X)
+				rs, okB := b.lenOf(x.Y)
+				_, cX := constString(info, x.X)
+				cy, cY := constString(info, x.Y)
+				if cX && !cY {
+					ls, rs, okA, okB = rs, ls, okB, okA
+					cy, _ = constString(info, x.X)
+					cY = true
+				}
+				if !okA || !okB || !cY {
+					return z
+				}
+				eq := (x.Op == token.EQL) == truth
+				out := z.clone()
+				if eq {
+					b.addLE(out, ls, rs, 0)
+					b.addLE(out, rs, ls, 0)
+				} else if cy == "" {
+					b.addLE(out, lin{0, 1}, ls, 0)
+				}
+				return out
+			}
 			if !ok1 || !ok2 {
 				return z
 			}
@@ -506,21 +551,50 @@ func (b *boundsFn) assignTo(z *zone, lhs ast.Expr, rhs ast.Expr, multi int) {
 				z.assign(v, l.v, l.c)
 				return
 			}
-			// strings.IndexByte & co: −1 ≤ result ≤ len(s) − 1
-			if call, ok := rhs.(*ast.CallExpr); ok {
+			// strings.IndexByte & co: −1 ≤ result ≤ len(s) − 1, possibly shifted by a constant
+			shift := int64(0)
+			rhs0 := rhs
+			for {
+				if pe, ok := rhs0.(*ast.ParenExpr); ok {
+					rhs0 = pe.X
+					continue
+				}
+				break
+			}
+			if be, ok := rhs0.(*ast.BinaryExpr); ok && (be.Op == token.ADD || be.Op == token.SUB) {
+				if k, ok := constInt64(info, be.Y); ok {
+					if _, isCall := be.X.(*ast.CallExpr); isCall {
+						rhs0 = be.X
+						shift = k
+						if be.Op == token.SUB {
+							shift = -k
+						}
+					}
+				} else if k, ok := constInt64(info, be.X); ok && be.Op == token.ADD {
+					if _, isCall := be.Y.(*ast.CallExpr); isCall {
+						rhs0 = be.Y
+						shift = k
+					}
+				}
+			}
+			if call, ok := rhs0.(*ast.CallExpr); ok {
 				fn := calleeOf(info, call)
 				if fn != nil && fn.Pkg() != nil && (fn.Pkg().Path() == "strings" || fn.Pkg().Path() == "bytes") && len(call.Args) >= 1 {
 					switch fn.Name() {
 					case "IndexByte", "Index", "IndexRune", "IndexAny", "LastIndexByte", "LastIndex":
+						ls, okLs := b.lenOf(call.Args[0])
+						if okLs && ls.v == v {
+							okLs = false
+						}
 						z.forget(v)
-						z.add(0, v, 1) // −1 ≤ v
-						if ls, ok := b.lenOf(call.Args[0]); ok {
-							b.addLE(z, lin{v, 0}, ls, -1)
+						z.add(0, v, 1-shift) // −1 + shift ≤ v
+						if okLs {
+							b.addLE(z, lin{v, 0}, ls, -1+shift)
 						}
 						return
 					}
 				}
-				if id, ok := call.Fun.(*ast.Ident); ok && (id.Name == "min" || id.Name == "max") {
+				if id, ok := call.Fun.(*ast.Ident); ok && shift == 0 && rhs0 == rhs && (id.Name == "min" || id.Name == "max") {
 					if _, isB := info.Uses[id].(*types.Builtin); isB {
 						z.forget(v)
 						for _, a := range call.Args {
